@@ -90,7 +90,11 @@ class JSONField(ABC):
         d = json.loads(json_string)
         ret = cls()
         # we make constructing from JSON more forgiving to allow some limited
-        # forward compatibility, in case the fields change
+        # forward compatibility, in case the fields change: fields this version does not
+        # have are skipped whatever their value is (the setters check values first)
+        for k in [k for k in d if k not in ret.__dict__]:
+            fl.get_logger().warning(f"Ignoring unknown field {k} when decoding {cls.__name__}")
+            d.pop(k)
         ret._set_fields(forgiving=True, **d)
         return ret
 
